@@ -377,6 +377,14 @@ func (d *DotGit) NewObjectPack() (*PackWriter, error) {
 	if cleanErr != nil {
 		return nil, cleanErr
 	}
+	// A read made while the writer is open rebuilds the pack list
+	// without the new pack: drop it again once the pack is in place.
+	pw.saved = func() {
+		d.listMu.Lock()
+		d.packMap = nil
+		d.packList = nil
+		d.listMu.Unlock()
+	}
 	return pw, nil
 }
 
@@ -811,7 +819,14 @@ func (d *DotGit) DeleteOldObjectPackAndIndex(hash plumbing.Hash, t time.Time) er
 func (d *DotGit) NewObject() (*ObjectWriter, error) {
 	d.cleanObjectList()
 
-	return newObjectWriter(d.fs, d.options.ObjectFormat)
+	w, err := newObjectWriter(d.fs, d.options.ObjectFormat)
+	if err != nil {
+		return nil, err
+	}
+	// A read made while the writer is open rebuilds the object list
+	// without the new object: drop it again once the object is in place.
+	w.saved = d.cleanObjectList
+	return w, nil
 }
 
 // ObjectsWithPrefix returns the hashes of objects that have the given prefix.
